@@ -135,5 +135,8 @@ def schedule_rules(rng, n_jobs):
         {'role': 'results_handler', 'op': 'array.set', 'obj': 'results_received', 'sleep': rng.choice([0.02, 0.1]), 'p': .5},
         {'role': 'unexpected_death_handler', 'op': 'is_alive', 'obj': None, 'sleep': rng.choice([0.03, 0.12]), 'p': .5},
         {'role': 'unexpected_death_handler', 'op': 'array.get', 'obj': 'workers_dead', 'k': rng.choice([20, 60, 120]), 'p': .5},
+        # a handler thread is held up between testing its stop conditions and going to sleep on its condition variable
+        {'role': 'restart_handler', 'op': 'lock.acquire', 'obj': None, 'sleep': rng.choice([0.03, 0.1, 0.5]), 'p': .5},
+        {'role': 'timeout_handler', 'op': 'event.is_set', 'obj': None, 'sleep': rng.choice([0.03, 0.1]), 'p': .3},
     ]
     return rng.sample(lib, rng.choice([1, 1, 2]))
